@@ -571,6 +571,9 @@ def _call(f):
         return {"res": type(e).__name__, "mro": [c.__name__ for c in type(e).__mro__], "val": None, "msg": str(e)[:200]}
 
 
+ROBUST_PATHS = ["a.b", "@a", "@a.b", "@@a", "\"a b\"", "x", "@x.y.z"]
+
+
 def robust_case(text: str) -> dict:
     from nix_manipulator.cli.manipulations import remove_value, set_value
     from nix_manipulator.parser import parse
@@ -585,6 +588,18 @@ def robust_case(text: str) -> dict:
         out[name] = {"res": r["res"], "mro": r["mro"], "msg": r.get("msg"), "out": r["val"]}
     o, s, _e = _run_main(["set", "a", "1"], text)
     out["cli_set"] = {"stdout_empty": o == "", "status": s if isinstance(s, int) else 1}
+    # every way of addressing an edit: plain, nested, scoped (@, @@), quoted paths
+    edits = []
+    for np in ROBUST_PATHS:
+        for kind, f in (("set", lambda np=np: set_value(parse(text), np, "2")), ("rm", lambda np=np: remove_value(parse(text), np))):
+            r = _call(f)
+            edits.append({"kind": kind, "npath": np, "res": r["res"], "mro": r["mro"]})
+    out["edits"] = edits
+    cli = []
+    for argv in (["set", "@a", "2"], ["rm", "a"], ["rm", "@a"], ["set", "a.b", "2"]):
+        o, s, _e = _run_main(argv, text)
+        cli.append({"argv": " ".join(argv), "stdout_empty": o == "", "status": s if isinstance(s, int) else 1})
+    out["cli_edits"] = cli
     return out
 
 
